@@ -152,9 +152,8 @@ def _convolve_model_dir_2(model_dir, filters, overwrite=False, memmap=True):
     # Set up list of binned filters
     binned_filters = [f.rebin(sed_cube.nu) for f in filters]
 
-    # We do the unit conversion - if needed - at the last minute
-    val_factor = sed_cube.val.unit.to(u.mJy)
-    unc_factor = sed_cube.unc.unit.to(u.mJy)
+    # The unit conversion - if needed - happens when the sums (which carry the
+    # units of the cube) are assigned to the mJy arrays below
 
     # Loop over apertures
     for i_ap in ProgressBar(range(sed_cube.n_ap)):
@@ -166,8 +165,8 @@ def _convolve_model_dir_2(model_dir, filters, overwrite=False, memmap=True):
 
             response = f.response.astype(sed_val.dtype)
 
-            fluxes[i].flux[:, i_ap] = np.sum(sed_val * response, axis=1) * val_factor
-            fluxes[i].error[:, i_ap] = np.sqrt(np.sum((sed_unc * response) ** 2, axis=1)) * unc_factor
+            fluxes[i].flux[:, i_ap] = np.sum(sed_val * response, axis=1)
+            fluxes[i].error[:, i_ap] = np.sqrt(np.sum((sed_unc * response) ** 2, axis=1))
 
     for i, f in enumerate(binned_filters):
 
